@@ -22,6 +22,7 @@ RULE = ("stream 'isspace': every code point < 0x3100 (+ samples above): Python's
         "file's state is compared with the model run over the regenerated trace. distinct = distinct case.")
 RULE += (" Route 'profile-inplace': the configuration object obtained from the profile is changed in place and handed back to write_config (as the noise layer does).")
 RULE += (" Route 'reload-after-resave': load, save a same-length configuration at once, load again.")
+RULE += (" Crash cases also with the temporary directory on another device than the profile storage (when the machine has one); the kernel's file-to-file copy (os.sendfile) is a kill point.")
 ASSUMPTIONS = ["json.loads(json.dumps(d)) == d and base64 decode∘encode = id (stdlib)", "open(..,'w') truncates at open; os.replace is atomic; a killed process "
                "loses nothing that was written (no power loss)", "key=value format: values without '#', ';', line breaks or surrounding blanks (the property's restriction)"]
 
@@ -157,6 +158,9 @@ def cases(chk):
         yield "crash", {"kill": k, "torn": 0, "fresh": 0, "fail": 1, "via": "profile" if k % 2 else "manager"}
         yield "crash", {"kill": k, "torn": 1, "fresh": 0, "fail": 1, "via": "manager" if k % 2 else "profile", "oldfmt": "keyval" if k % 3 == 0 else "json"}
         yield "crash", {"kill": k, "torn": 0, "fresh": 1}
+        # the temporary directory on another device than the profile storage
+        yield "crash", {"kill": k, "torn": 0, "fresh": 0, "tmpdev": 1, "via": "profile" if k % 2 else "manager"}
+        yield "crash", {"kill": k, "torn": 1, "fresh": 0, "tmpdev": 1, "via": "manager" if k % 2 else "profile"}
     for _ in range(chk.scale(250, 8000)):
         d = {}
         for f in r.sample(FIELDS + ["__version__"], r.randint(0, 9)):
@@ -397,6 +401,24 @@ def run_config(chk, case):
     return fails
 
 
+def _other_device_dir(base):
+    """a writable directory on another device than `base` (None if this machine has none)"""
+    import tempfile
+    try:
+        dev = os.stat(base).st_dev
+    except OSError:
+        return None
+    for cand in ("/dev/shm", "/run/shm", "/var/tmp", "/tmp", os.path.expanduser("~")):
+        try:
+            if os.path.isdir(cand) and os.access(cand, os.W_OK) and os.stat(cand).st_dev != dev:
+                d = os.path.join(cand, "c19-tmpdev-%d" % os.getuid())
+                os.makedirs(d, exist_ok=True)
+                return d
+        except OSError:
+            continue
+    return None
+
+
 def run_crash(chk, case):
     fails = []
     cm = chk.cm
@@ -410,10 +432,21 @@ def run_crash(chk, case):
         os.makedirs(pdir, exist_ok=True)
         with open(final, "w") as f:
             f.write(cm.config_to_str(old, cm.TYPE_KEYVAL if keyval else cm.TYPE_JSON))
+    other = _other_device_dir(chk.base) if case.get("tmpdev") else None
+    if case.get("tmpdev"):
+        chk.hit("tmpdev:" + ("available" if other else "unavailable"))
+        if other is None:
+            return fails
     pid = os.fork()
     if pid == 0:
         code = 0
         try:
+            if other is not None:
+                # the directory for temporary files is on ANOTHER device than the profile storage (a tmpfs /tmp, a profile on a mounted
+                # volume): a save that prepares the new content there cannot move it into place atomically
+                import tempfile
+                tempfile.tempdir = other
+                os.environ["TMPDIR"] = other
             with Tracer(final, kill_at=case["kill"], torn=bool(case["torn"]), fail=bool(case.get("fail"))):
                 if case.get("via") == "profile":
                     from yowsup.profile.profile import YowProfile
